@@ -186,6 +186,8 @@ def run(chk):
                 'formats of the property; a case is distinct per (tree, format), non-trivial when the tree has >= 2 nodes')
     t0 = time.time()
     chk.require_theorems('Properties.C10', THEOREMS)
+    from harness import extra_theorems
+    chk.require_theorems('Properties.C10b', extra_theorems.THEOREMS_C10)
     chk.notes.append(f'phase build+obligations: {time.time() - t0:.1f}s')
     chk.assumptions += [
         'str.format is modelled for literal text, {{ }} escapes and the plain fields {prefix} {i} {j}; other formats are rejected by parse_fmt (outside the model)',
